@@ -453,3 +453,6 @@ def finish(stats, tier):
         if not stats.get("counters", {}).get("real_" + o):
             out.append("no real run of " + o)
     return out
+
+
+RULE += " Since rounds 10-11 also: three isolate roots chained by two hard-link sets; absolute but non-canonical isolate roots on the dedupe command line ('..', through a symbolic link)."
